@@ -2,7 +2,7 @@
 # usage: confirm_mutant.sh <prop> <X>   (scratch worktree /tmp/mut/<prop>, outputs /tmp/mut/out/<prop>/<X>)
 # Confirms in the scratch worktree: (1) with the patch the existing suite passes, (2) the demo
 # fails with the patch, (3) the demo passes without it.  Prints a one-line verdict.
-P=$1; X=$2; WP=${3:-$1}; W=/tmp/mut/$WP; O=/tmp/mut/out/$P/$X
+P=$1; X=$2; WP=${3:-$1}; R=${MUTROOT:-/tmp/mut}; W=$R/$WP; O=$R/out/$P/$X
 export CARGO_NET_OFFLINE=true CARGO_TARGET_DIR=$W/target
 cd $W || exit 2
 git checkout -q -- . 2>/dev/null
